@@ -85,7 +85,7 @@ def run(module, cfg, wd, modules=None, env=None, workers=16, flags=(), timeout=9
         f.write(cfg)
     meta = os.path.join(wd, 'meta-' + module)
     shutil.rmtree(meta, ignore_errors=True)
-    cmd = ['java', '-XX:+UseParallelGC', '-Xmx' + heap, '-DTLA-Library=' + SPECS + os.pathsep + wd]
+    cmd = ['java', '-XX:+UseParallelGC', '-Xss512m', '-Xmx' + heap, '-DTLA-Library=' + SPECS + os.pathsep + wd]
     if dfs:
         cmd.append('-Dtlc2.tool.queue.IStateQueue=StateDeque')
     cmd += ['-cp', JAR, 'tlc2.TLC', '-config', cfgp, '-metadir', meta, '-noGenerateSpecTE',
